@@ -12,6 +12,8 @@ INVARIANT BoundaryAgrees
 INVARIANT SplitIsPartition
 INVARIANT NormHasNoBareLF
 INVARIANT NormIdempotent
+INVARIANT NormByLineAgrees
+INVARIANT FlatAgrees
 CHECK_DEADLOCK FALSE
 """
 
